@@ -163,6 +163,37 @@ def main():
         emit("btree_" + n.lower(), const(btree, n, benv))
     emit("key_size", const(strip_comments(src("lib.rs")), "KEY_SIZE", {}))
 
+    # ---- text formats (C17): the format string of ColumnOptions::as_string, the keys read back by
+    # from_string, the metadata line formats and the file-name prefixes
+    def bytes_list(t):
+        return coq_list(list(t.encode()))
+    m = re.search(r'fn as_string\(&self\) -> String \{\s*format!\(\s*"([^"]*)",((?:\s*self\.[a-z_]+(?: as u8)?,)+)\s*\)', options)
+    if not m:
+        raise Broken("ColumnOptions::as_string is no longer a single format! of self.<field> arguments")
+    pieces = m.group(1).split("{}")
+    fields = [f.strip().rstrip(",") for f in m.group(2).split("\n") if f.strip()]
+    fields = [re.sub(r"^self\.", "", f) for f in fields]
+    expected_fields = ["preimage", "uniform", "ref_counted", "compression as u8", "btree_index", "multitree", "append_only", "allow_direct_node_access"]
+    if fields != expected_fields:
+        raise Broken(f"ColumnOptions::as_string prints fields {fields}, the model expects {expected_fields}")
+    out.append("Definition options_fmt_pieces : list (list N) := [" + "; ".join(bytes_list(x) for x in pieces) + "].")
+    keys = re.findall(r'vals\s*\.?\s*get\("([a-z_]+)"\)', options)
+    out.append("Definition options_parse_keys : list (list N) := [" + "; ".join(bytes_list(x) for x in keys) + "].")
+    m = re.search(r'split\("(sizes: )"\)', options)
+    if not m:
+        raise Broken("from_string no longer cuts the string at \"sizes: \"")
+    out.append(f"Definition options_sizes_marker : list N := {bytes_list(m.group(1))}.")
+    for label, pat in [("version", r'format!\("(version=)\{\}"'), ("salt", r'format!\("(salt=)\{\}"'), ("col", r'format!\("(col)\{\}=\{\}"')]:
+        mm = re.search(pat, options)
+        if not mm:
+            raise Broken(f"metadata line format for {label} not found")
+        out.append(f"Definition meta_prefix_{label} : list N := {bytes_list(mm.group(1))}.")
+    for label, text in [("index", index), ("table", table), ("refcount", refc)]:
+        mm = re.search(r'name\.starts_with\(&format!\("([a-z]+_)\{col:02\}_"\)\)', text)
+        if not mm:
+            raise Broken(f"is_file_name of {label} is no longer starts_with(\"<kind>_{{col:02}}_\")")
+        out.append(f"Definition file_prefix_{label} : list N := {bytes_list(mm.group(1))}.")
+
     text = ("(* GENERATED by tools/gen_consts.py from /repo/src on every check run. Do not edit. *)\n"
             "From Coq Require Import NArith List.\nImport ListNotations.\nOpen Scope N_scope.\n\n"
             + "\n".join(out) + "\n")
